@@ -180,3 +180,23 @@ Proof.
   unfold ew_value, apply_scale. cbn [Z.eqb]. cbv zeta.
   apply scale_tfl_is_reference; try assumption. unfold in32; nia.
 Qed.
+
+(* ------------------------------------------------------------------ the table look-up stays inside the LUT footprint *)
+(* the byte the executable semantics reads for a table look-up (hw/NpuExec.v activate) lies inside the read footprint
+   that the bounds / def-use / hazard validators attribute to the operation (hw/Npu.v op_footprint, lut_read_bytes):
+   slot i, 8-bit OFM, any value inside the output type's range *)
+Definition lut_read_addr (base i : Z) (signed : bool) (v : Z) : Z := base + i * 256 + (v - (if signed then -128 else 0)).
+
+Lemma lut_read_inside_footprint (base i : Z) (signed : bool) (v : Z) :
+  0 <= i <= 7 ->
+  (if signed then -128 <= v <= 127 else 0 <= v <= 255) ->
+  base + i * 256 <= lut_read_addr base i signed v < base + i * 256 + lut_read_bytes 1 i.
+Proof.
+  intros Hi Hv. unfold lut_read_addr, lut_read_bytes. cbn [Z.eqb Pos.eqb].
+  rewrite Z.min_r by lia. destruct signed; lia.
+Qed.
+
+Lemma activate_reads_lut_read_addr x m r v i :
+  lut_index r = Some i ->
+  activate x m r v = rd8 (get_bank m SHRAM) (lut_read_addr (x_lut_addr x) i (ofm_signed r) v).
+Proof. intros H. unfold activate, lut_read_addr. rewrite H. reflexivity. Qed.
